@@ -609,6 +609,16 @@ pub fn predict(t: &Tree, op: &Op) -> Predicted {
             }
         }
         // timestamps never change the abstract tree; outcome judged elsewhere (C19)
+        // A setter on a missing entry must fail; where the parent is an existing directory and
+        // the operation is implemented by every backend (modification / access time) the error
+        // is a not-found (C12). Creation time is not-supported on PhysicalFS: any error.
+        Op::SetTime(p, field, ..) if !t.exists(p) => {
+            if *field == TimeField::Created {
+                err_same(ErrReq::Any)
+            } else {
+                err_same(missing(t, p))
+            }
+        }
         Op::SetTime(..) => Predicted { expect: Expect::Unspecified, effect: Effect::Same },
     }
 }
